@@ -18,7 +18,7 @@ if [ -n "${VERIF_REPO:-}" ] && [ "$VERIF_REPO" != /repo ]; then
   # replace directive redirected through an alternate go.mod
   sed "s|=> /repo|=> $VERIF_REPO|" go.mod > "$VERIF_SCRATCH/alt.mod"; cp go.sum "$VERIF_SCRATCH/alt.sum"
   MODFLAG="-modfile=$VERIF_SCRATCH/alt.mod"
-  export VERIF_REPO
+  export VERIF_REPO VERIF_MODFLAG="$MODFLAG"
 fi
 if ! go build $MODFLAG -tags "verif vp_${ID,,}" -o "$VERIF_SCRATCH/bin/vp" ./cmd/vp 2>"$VERIF_SCRATCH/build.err"; then
   echo "MACHINERY-FAILURE property=$ID driver does not build against /repo:"; cat "$VERIF_SCRATCH/build.err"
